@@ -34,6 +34,11 @@ def main():
     name = os.path.basename(d)
     scratch = "/tmp/evalseed-%s-%d" % (name, os.getpid())
     out = {"property": prop, "name": name, "tier": tier, "at": time.strftime("%Y-%m-%dT%H:%M:%SZ", time.gmtime())}
+    # the outcome of the first evaluation (before any strengthening of the check) is kept for the record
+    evf = os.path.join(d, "evaluation.json")
+    if os.path.exists(evf):
+        old = json.load(open(evf))
+        out["first_evaluation"] = old.get("first_evaluation") or {k: old.get(k) for k in ("at", "tier", "check_exit", "caught", "no_failing_input_found_only")}
     rc, o = sh(["git", "-C", "/repo", "worktree", "add", "-q", "--detach", scratch, "HEAD"])
     if rc != 0:
         print("worktree failed", o)
